@@ -57,6 +57,8 @@ pub enum Op {
     RowStyle { sheet: usize, row: u32, k: u8 },
     ColStyle { sheet: usize, col: u32, k: u8 },
     Image { sheet: usize, cell: String, name: String, blue: bool },
+    /// a sheet or workbook annotation (conditional format, validation, ...), see annot.rs
+    Annot { a: crate::annot::AOp },
 }
 
 impl Op {
@@ -101,6 +103,7 @@ impl Op {
             Op::RowStyle { .. } => "row_style",
             Op::ColStyle { .. } => "col_style",
             Op::Image { .. } => "image",
+            Op::Annot { .. } => "annot",
         }
     }
 }
@@ -483,6 +486,10 @@ pub fn apply(book: &mut Spreadsheet, op: &Op) -> bool {
             img.new_image_with_dimensions(1, 1, name.as_str(), bytes, marker);
             s.add_image(img);
         }),
+        Op::Annot { a } => {
+            crate::annot::apply(book, a);
+            Some(())
+        }
         Op::EditComment { sheet, nth, text } => sheet_mut(book, *sheet).and_then(|s| {
             let n = s.get_comments().len();
             if n == 0 {
@@ -528,6 +535,8 @@ pub const ALPHABETS: &[&[&str]] = &[
     &[" ", "  ", "\n", "\t", "a", "b", "\r\n"],
     &["é", "ß", "日本", "😀", "𝄞", "Ω", "a"],
     &["a", "\u{1}", "\u{b}", "\u{1f}", "b", "_x0041_", "\u{7f}"],
+    // the two non-characters XML 1.0 excludes, without any C0 control or underscore next to them
+    &["a", "\u{fffe}", "\u{ffff}", "é", " ", "b"],
 ];
 
 pub fn gen_text(rng: &mut Rng, alpha: usize, max_parts: usize) -> String {
@@ -627,7 +636,9 @@ pub fn gen_cell_op(rng: &mut Rng, cfg: &GenCfg, tag: &str) -> Op {
         7 => Op::Hyperlink {
             sheet,
             cell,
-            url: match rng.usize(4) {
+            url: match rng.usize(6) {
+                // a few targets that several links of a workbook share (a, b, a, c ...)
+                4 | 5 => format!("https://example.com/shared/{}", ["a", "b", "c"][rng.usize(3)]),
                 0 => format!("https://example.com/{}/{}#frag ment", tag, rng.below(1000)),
                 1 => format!("file:///C:/some dir/{} file.xlsx", rng.below(100)),
                 _ => format!("https://example.com/{}/{}", tag, rng.below(1000)),
